@@ -177,6 +177,7 @@ struct Slot {
     uint64_t reg_gseq = 0;
     std::map<std::string, int> sys_received;     // key "topic|senderslot" -> count
     std::vector<uint64_t> tick_times;
+    int c19_stopped_rx_at_loop_start = 0;
     long pending = 0;                 // messages accepted for this module and still in its mailbox (mirror)
     bool pending_exact = true;        // false once something we cannot count may be in the mailbox (system notifications, flush-time uncertainty)
     bool pill_wildcard = false;       // a pill was sent to it by a final-flush handler: whether it is still pending is unknown
@@ -271,7 +272,7 @@ struct World {
     bool quiescent_real = false;
     struct C16Expect { int slot; size_t k; bool seen; std::vector<StashM> want; };
     std::vector<C16Expect> c16_expect;
-    struct C19Obl { int recipient; std::string topic; int sender; uint64_t gseq; bool done; };
+    struct C19Obl { int recipient; std::string topic; int sender; uint64_t gseq; bool done; uint64_t frame_gseq = 0; };
     std::vector<C19Obl> c19_obls;
     uint64_t ctx_tick_set_gseq = 0;
     bool c15_nested_cb_returned = false, c15_misc_null = false, c15_reserved_topic = false, c15_looping_at_entry = false;
@@ -281,6 +282,7 @@ struct World {
     uint64_t last_real_poll_time = 0;
     bool c19_tick_ever = false;
     uint64_t c19_min_tick_ns = 0;
+    uint64_t c19_first_tick_gseq = 0;
     int next_actor = -1;   // the current quiescent point is a real poll (not the end of the start pass)
     bool c07_looping_at_entry = false;
     std::map<int, int> c07_active_before;
@@ -301,6 +303,7 @@ bool frame_on_stack(const char *name, int slot);
 bool frame_on_stack_any(const char *name);
 bool cb_on_stack(int cb, int slot);
 bool ctx_is_looping_probe(bool *known);
+bool flush_phase_now();
 uint64_t ud_new(bool autofree, const void **ptr_out);
 uint64_t ud_of(const void *p);
 void teardown();
